@@ -423,15 +423,17 @@ fn main() {
                         a, b
                     ));
                 }
-
-                res.push_str(&*format!(
-                    "
-    state = {};",
-                    codes.len(),
-                ));
             }
             if !codes.last().unwrap().is_empty() {
                 codes.push(Vec::new());
+            }
+            if opt {
+                // the residual program starts in the block that is open now
+                res.push_str(&*format!(
+                    "
+    state = {};",
+                    codes.len() - 1,
+                ));
             }
         }
 
